@@ -97,9 +97,11 @@ RECURSIVE TransferTo(_, _)
 
 (* ---------------- Join / Chain ---------------- *)
 \* Join._finish_apply
+\* (fix of finding F14: the identity short-cut applies only when there is no
+\* join predicate to evaluate)
 JoinFinish(jop, l, r) ==
-    IF JoinIdentity(l) THEN r
-    ELSE IF JoinIdentity(r) THEN l
+    IF JoinIdentity(l) /\ AsTrivial(jop.p) = "T" THEN r
+    ELSE IF JoinIdentity(r) /\ AsTrivial(jop.p) = "T" THEN l
     ELSE IF Eng(l) # Eng(r) THEN Err("EngineError")
     ELSE IF ~SupP(jop.p, KindOf(Eng(l))) THEN Err("EngineError")
     ELSE Bin(jop, l, r)
@@ -117,8 +119,8 @@ ApplyBinary(bop, l, r) ==
                             ELSE {c \in Cols(l) \cap Cols(r) : IsKey(c)}
                   jop == JoinOp(bop.p, common)
               IN IF bop.res /\ ~(common \subseteq Cols(l) /\ common \subseteq Cols(r)) THEN Err("ColumnError")
-                 ELSE IF JoinIdentity(l) THEN (IF KindOf(Eng(l)) = "sql" THEN Conform(r) ELSE r)
-                 ELSE IF JoinIdentity(r) THEN (IF KindOf(Eng(l)) = "sql" THEN Conform(l) ELSE l)
+                 ELSE IF JoinIdentity(l) /\ AsTrivial(bop.p) = "T" THEN (IF KindOf(Eng(l)) = "sql" THEN Conform(r) ELSE r)
+                 ELSE IF JoinIdentity(r) /\ AsTrivial(bop.p) = "T" THEN (IF KindOf(Eng(l)) = "sql" THEN Conform(l) ELSE l)
                  ELSE IF KindOf(Eng(l)) = "sql" THEN SqlAppendBinary(jop, Conform(l), Conform(r))
                  ELSE JoinFinish(jop, l, r)
 
@@ -206,8 +208,15 @@ SqlAppendBinary(bop, L, R) ==
     THEN Bind(IF HasSlice(L) THEN PlainSel(L) ELSE L, LAMBDA l2 :
          Bind(IF HasSlice(R) THEN PlainSel(R) ELSE R, LAMBDA r2 :
             PlainSel(Bin(ChainOp, l2, r2))))
-    ELSE LET sl == StripG(L, TRUE)
-             sr == StripG(R, TRUE)
+    ELSE LET sl0 == StripG(L, TRUE)
+             sr0 == StripG(R, TRUE)
+             \* fix of finding F4: a stripped operand exposes the columns its
+             \* projection had hidden; if one of them is also a column of the
+             \* other operand, both operands stay sub-queries
+             collide == \/ ((Cols(sl0.t) \ Cols(L)) \cap Cols(sr0.t)) # {}
+                        \/ ((Cols(sr0.t) \ Cols(R)) \cap Cols(sl0.t)) # {}
+             sl == IF collide THEN [t |-> L, np |-> FALSE] ELSE sl0
+             sr == IF collide THEN [t |-> R, np |-> FALSE] ELSE sr0
              proj == IF sl.np \/ sr.np THEN SomeProj(Cols(L) \cup Cols(R)) ELSE NoProj
          IN Bind(JoinFinish(bop, sl.t, sr.t), LAMBDA x : ApplySkip(x, <<>>, proj, FALSE, 0, -1))
 
